@@ -4,6 +4,7 @@ conversions, get_tfidf, get_membership / from_membership, top_k.
 -/
 import Mathlib.Algebra.Order.Ring.Abs
 import Mathlib.Algebra.Order.Field.Rat
+import Mathlib.Tactic.Linarith
 import SkNet.Lemmas.LinOpExpr
 import SkNet.Model.Convert
 import SkNet.Spec.Convert
@@ -202,5 +203,209 @@ theorem docFreq_spec (count : Mat) (j : Nat) (hj : j < count.nCol) :
     (docFreq count).getD j 0 = ((List.range count.nRow).filter fun i => 0 < count.get i j).length := by
   unfold docFreq
   rw [tab_getD, if_pos hj]
+
+/-! ### get_membership / from_membership -/
+
+theorem toArray_getD {α : Type} (l : List α) (i : Nat) (d : α) : l.toArray.getD i d = l.getD i d := by
+  simp [Array.getD, List.getD_eq_getElem?_getD]
+  split
+  · rename_i h; simp [List.getElem?_eq_getElem h]
+  · rename_i h; simp [List.getElem?_eq_none (Nat.le_of_not_lt h)]
+
+theorem assign_clamp (l : List Int) :
+    assignMasked (l.map fun x => decide (0 ≤ x)) (l.filter (0 ≤ ·)) = clampLabels l := by
+  induction l with
+  | nil => rfl
+  | cons x xs ih =>
+    by_cases h : 0 ≤ x
+    · have hx : ¬ x < 0 := not_lt.mpr h
+      simp [assignMasked, clampLabels, h, hx] at ih ⊢
+      exact ih
+    · have hx : x < 0 := not_le.mp h
+      simp [assignMasked, clampLabels, h, hx] at ih ⊢
+      exact ih
+
+theorem countNonneg_succ (l : List Int) (i : Nat) (hi : i < l.length) :
+    countNonneg l (i+1) = countNonneg l i + (if 0 ≤ l.getD i (-1) then 1 else 0) := by
+  unfold countNonneg
+  rw [List.take_add_one, List.getElem?_eq_getElem hi, List.getD_eq_getElem?_getD, List.getElem?_eq_getElem hi]
+  simp only [Option.toList_some, List.filter_append, List.length_append, Option.getD_some]
+  by_cases h : 0 ≤ l[i] <;> simp [h]
+
+theorem mask_eq (l : List Int) :
+    (tab l.length fun i => decide (0 < countNonneg l (i+1) - countNonneg l i)) = l.map fun x => decide (0 ≤ x) := by
+  apply List.ext_getElem (by simp)
+  intro i h1 h2
+  simp only [tab_length] at h1
+  have := tab_getElem? l.length (fun i => decide (0 < countNonneg l (i+1) - countNonneg l i)) i
+  rw [if_pos h1, List.getElem?_eq_getElem (by simpa using h1)] at this
+  have e := Option.some.inj this
+  rw [e, countNonneg_succ l i h1, List.getElem_map, List.getD_eq_getElem?_getD, List.getElem?_eq_getElem h1]
+  by_cases h : 0 ≤ l[i] <;> simp [h]
+
+theorem fromMembership_membershipCsr (l : List Int) (m : Int) :
+    fromMembership (membershipCsr l m) = .ok (clampLabels l) := by
+  unfold fromMembership degrees membershipCsr
+  simp only [toArray_getD, tab_getD]
+  have hm : (List.map (fun d => decide (0 < d))
+      (tab l.length fun i => (if i + 1 < l.length + 1 then countNonneg l (i + 1) else 0)
+        - (if i < l.length + 1 then countNonneg l i else 0)))
+      = l.map fun x => decide (0 ≤ x) := by
+    rw [← mask_eq]
+    unfold tab
+    rw [List.map_map]
+    apply List.map_congr_left
+    intro i hi
+    have hi' := List.mem_range.mp hi
+    simp [hi', Nat.lt_succ_of_lt hi']
+  rw [hm]
+  have hk : (List.filter id (l.map fun x => decide (0 ≤ x))).length = (l.filter (0 ≤ ·)).length := by
+    rw [List.filter_map]; simp [Function.comp_def]
+  have hi : (List.map Int.ofNat (List.map Int.toNat (l.filter (0 ≤ ·)))) = l.filter (0 ≤ ·) := by
+    rw [List.map_map]
+    conv => rhs; rw [← List.map_id (l.filter (0 ≤ ·))]
+    apply List.map_congr_left
+    intro x hx
+    have : 0 ≤ x := by simpa using (List.mem_filter.mp hx).2
+    simp [Int.toNat_of_nonneg this]
+  simp only [List.size_toArray, List.length_map, hk, ne_eq, not_true_eq_false, if_false, List.toList_toArray]
+  rw [hi, assign_clamp]
+
+theorem getMembership_ok {l : List Int} {nl : Option Nat} {c : Csr Rat} (h : getMembership l nl = .ok c) :
+    ∃ m : Int, 0 ≤ m ∧ (∀ x ∈ l, 0 ≤ x → x < m) ∧ c = membershipCsr l m := by
+  unfold getMembership at h
+  obtain ⟨m, _, h⟩ := bind_eq_ok h
+  split at h
+  · cases h
+  · rename_i h1
+    split at h
+    · cases h
+    · rename_i h2
+      cases h
+      refine ⟨m, not_lt.mp h1, fun x hx h0 => ?_, rfl⟩
+      by_contra hc
+      apply h2
+      apply List.any_eq_true.mpr
+      exact ⟨x, List.mem_filter.mpr ⟨hx, by simpa using h0⟩, by simpa using not_lt.mp hc⟩
+
+/-! ### top_k -/
+
+theorem insertDesc_perm (key : Nat → Rat) (i : Nat) (l : List Nat) : (insertDesc key i l).Perm (i :: l) := by
+  induction l with
+  | nil => exact List.Perm.refl _
+  | cons j js ih =>
+    unfold insertDesc
+    split
+    · exact List.Perm.refl _
+    · exact (List.Perm.cons j ih).trans (List.Perm.swap i j js)
+
+theorem insertDesc_sorted (key : Nat → Rat) (i : Nat) (l : List Nat)
+    (h : l.Pairwise fun a b => key b ≤ key a) : (insertDesc key i l).Pairwise fun a b => key b ≤ key a := by
+  induction l with
+  | nil => simp [insertDesc]
+  | cons j js ih =>
+    unfold insertDesc
+    have hj := List.pairwise_cons.mp h
+    split
+    · rename_i hle
+      refine List.pairwise_cons.mpr ⟨fun b hb => ?_, h⟩
+      rcases List.mem_cons.mp hb with rfl | hb
+      · exact hle
+      · exact le_trans (hj.1 b hb) hle
+    · rename_i hle
+      have hlt : key i ≤ key j := le_of_lt (not_le.mp hle)
+      refine List.pairwise_cons.mpr ⟨fun b hb => ?_, ih hj.2⟩
+      have := (insertDesc_perm key i js).subset hb
+      rcases List.mem_cons.mp this with rfl | hb'
+      · exact hlt
+      · exact hj.1 b hb'
+
+theorem argsortDesc_perm (scores : List Rat) : (argsortDesc scores).Perm (List.range scores.length) := by
+  unfold argsortDesc
+  generalize List.range scores.length = r
+  induction r with
+  | nil => exact List.Perm.refl _
+  | cons i r ih => exact (insertDesc_perm _ i _).trans (List.Perm.cons i ih)
+
+theorem argsortDesc_sorted (scores : List Rat) :
+    (argsortDesc scores).Pairwise fun a b => vget scores b ≤ vget scores a := by
+  unfold argsortDesc
+  generalize List.range scores.length = r
+  induction r with
+  | nil => simp
+  | cons i r ih => exact insertDesc_sorted _ i _ ih
+
+theorem adjacent_of_pairwise {R : Nat → Nat → Prop} : ∀ (l : List Nat), l.Pairwise R →
+    ∀ p ∈ l.zip (l.drop 1), R p.1 p.2
+  | [], _, p, hp => by simp at hp
+  | [a], _, p, hp => by simp at hp
+  | a :: b :: t, h, p, hp => by
+    have h' := List.pairwise_cons.mp h
+    simp only [List.drop_succ_cons, List.drop_zero, List.zip_cons_cons, List.mem_cons] at hp
+    rcases hp with rfl | hp
+    · exact h'.1 b (List.mem_cons_self ..)
+    · exact adjacent_of_pairwise (b :: t) h'.2 p (by simpa using hp)
+
+/-- the specification of `top_k` as a proposition -/
+def TopKProp (scores : List Rat) (k : Nat) (sort : Bool) (out : List Nat) : Prop :=
+  out.length = min k scores.length ∧ (∀ i ∈ out, i < scores.length) ∧ out.Nodup ∧
+  (∀ i, i < scores.length → i ∈ out ∨ ∀ j ∈ out, vget scores i ≤ vget scores j) ∧
+  (sort = true → ∀ p ∈ out.zip (out.drop 1), vget scores p.2 ≤ vget scores p.1)
+
+theorem TopKSpec_iff (scores : List Rat) (k : Nat) (sort : Bool) (out : List Nat) :
+    TopKSpec scores k sort out = true ↔ TopKProp scores k sort out := by
+  unfold TopKSpec TopKProp
+  simp only [Bool.and_eq_true, beq_iff_eq, List.all_eq_true, decide_eq_true_eq, Bool.or_eq_true,
+    List.contains_iff_mem, List.mem_range, Bool.not_eq_true', and_assoc]
+  constructor
+  · rintro ⟨h1, h2, h3, h4, h5⟩
+    refine ⟨h1, h2, h3, h4, fun hs p hp => ?_⟩
+    rcases h5 with h5 | h5
+    · rw [hs] at h5; cases h5
+    · exact h5 p hp
+  · rintro ⟨h1, h2, h3, h4, h5⟩
+    refine ⟨h1, h2, h3, h4, ?_⟩
+    cases sort with
+    | false => exact Or.inl rfl
+    | true => exact Or.inr (h5 rfl)
+
+theorem topK_prop (scores : List Rat) (k : Nat) (sort : Bool) : TopKProp scores k sort (topK scores k sort) := by
+  have hperm := argsortDesc_perm scores
+  have hsorted := argsortDesc_sorted scores
+  have hlen : (argsortDesc scores).length = scores.length := by rw [hperm.length_eq]; simp
+  have hmem : ∀ i, i ∈ argsortDesc scores ↔ i < scores.length := fun i => by
+    rw [hperm.mem_iff]; exact List.mem_range
+  have hnd : (argsortDesc scores).Nodup := hperm.nodup_iff.mpr List.nodup_range
+  unfold topK
+  by_cases hk : scores.length ≤ k
+  · simp only [hk, if_true]
+    cases sort with
+    | true =>
+      simp only [if_true]
+      exact ⟨by rw [hlen]; omega, fun i hi => (hmem i).mp hi, hnd, fun i hi => Or.inl ((hmem i).mpr hi),
+        fun _ p hp => adjacent_of_pairwise _ hsorted p hp⟩
+    | false =>
+      simp only [Bool.false_eq_true, if_false]
+      exact ⟨by simp; omega, fun i hi => List.mem_range.mp hi, List.nodup_range,
+        fun i hi => Or.inl (List.mem_range.mpr hi), fun h => by cases h⟩
+  · simp only [hk, if_false]
+    have hk' : k < scores.length := not_le.mp hk
+    have hsplit : argsortDesc scores = (argsortDesc scores).take k ++ (argsortDesc scores).drop k :=
+      (List.take_append_drop k _).symm
+    refine ⟨by rw [List.length_take, hlen], fun i hi => (hmem i).mp (List.mem_of_mem_take hi),
+      hnd.sublist (List.take_sublist k _), fun i hi => ?_, fun _ p hp => ?_⟩
+    · have hi' : i ∈ argsortDesc scores := (hmem i).mpr hi
+      rw [hsplit, List.mem_append] at hi'
+      rcases hi' with h | h
+      · exact Or.inl h
+      · right
+        intro j hj
+        rw [hsplit] at hsorted
+        exact (List.pairwise_append.mp hsorted).2.2 j hj i h
+    · exact adjacent_of_pairwise _ (hsorted.sublist (List.take_sublist k _)) p hp
+
+theorem topK_spec (scores : List Rat) (k : Nat) (sort : Bool) :
+    TopKSpec scores k sort (topK scores k sort) = true :=
+  (TopKSpec_iff scores k sort _).mpr (topK_prop scores k sort)
 
 end SkNet.Convert
